@@ -5,7 +5,7 @@ strings, well-formed and malformed payloads), on a member that already holds dat
 answers every request (value or error) and stays responsive.  No Lean model for the handler bodies."""
 NO_MODEL = True
 HEADER = 3
-REQUIRED_SHAPES = ["subscriber_mode_sequences", "entry_size_around_table_size", "skeleton_mutations", "malformed_raw_entry", "all_commands_covered", "numeric_extremes", "member_alive_checked"]
+REQUIRED_SHAPES = ["one_reply_per_command", "subscriber_mode_sequences", "entry_size_around_table_size", "skeleton_mutations", "malformed_raw_entry", "all_commands_covered", "numeric_extremes", "member_alive_checked"]
 
 NUM = [b"0", b"1", b"-1", b"6", b"7", b"100000", b"9223372036854775807", b"-9223372036854775808", b"18446744073709551615",
        b"99999999999999999999999", b"1.5", b"-0.5", b"NaN", b"abc", b""]
@@ -40,6 +40,21 @@ class Oracle:
                         pass
                 cmd = " ".join(t if t else "''" for t in toks)[:160]
                 return "no reply to [%s]: %s" % (cmd, reply)
+            return None
+        if f[0] == "c.rawframe":
+            toks = [bytes.fromhex(x).decode("latin1") if x != "-" else "" for x in f[2:]]
+            cmd = " ".join(t if t else "''" for t in toks)[:120]
+            first = toks[0].lower() if toks else ""
+            if first in ("subscribe", "psubscribe", "quit"):
+                return None          # the connection changes its mode: what follows is answered differently, or not at all
+            if reply.startswith("first=none") or "second=none" in reply:
+                if first == "dm.lock":
+                    return None      # may wait for its deadline
+                return "one connection, [%s] followed by PING: %s" % (cmd, reply[:100])
+            self.hit("one_reply_per_command")
+            if " second=+PONG extra=0" not in reply:
+                return ("one connection, [%s] followed by PING: %s - the command was answered twice or not at all, every later reply "
+                        "on this connection belongs to the wrong command" % (cmd, reply[:120]))
             return None
         if f[0] == "c.rawseq":
             return None if reply == "ok" else "after a sequence of commands over one connection the member does not answer: %s" % reply[:80]
@@ -125,6 +140,9 @@ class Gen:
                     v = list(sk)
                     v[pos] = tok
                     yield "c.rawcmd %d %s" % (r.randrange(2), " ".join(hx(t) for t in v))
+                    if self.tier != "quick" or r.random() < 0.3:
+                        # ... and once more with a PING behind it on the same connection: one reply per command
+                        yield "c.rawframe %d %s" % (r.randrange(2), " ".join(hx(t) for t in v))
             orc.hit("skeleton_mutations")
             yield "c.get cli 0 h %s" % hx(b"k2")
         # what a connection remembers: subscriber mode.  Every short sequence of (un)subscriptions - held, not held, held by
@@ -151,6 +169,7 @@ class Gen:
                 val = b"S" * (4096 - 29 - len(key) + d)
                 m = r.randrange(2)
                 yield "c.rawcmd %d %s" % (m, " ".join(hx(t) for t in [cmd, b"h", key, val]))
+                yield "c.rawframe %d %s" % (m, " ".join(hx(t) for t in [cmd, b"h", key + b"f", val]))
                 yield "c.get cli %d h %s" % (1 - m, hx(b"k1"))
                 orc.hit("entry_size_around_table_size")
         # raw entries that are not encoded entries: stored verbatim by DM.PUTENTRY, then read back
